@@ -153,7 +153,7 @@ def pack (v : Ver) (gz : GzOracle) (p : Packet) (thr : Int) : Res (Bytes × Pack
       | .ok c => Res.ok { p with body := c, gzip := true }
       | .err e => .err e
       | .panic w => .panic w
-    else .ok p)
+    else .ok { p with gzip := false })     -- the flag describes THIS frame's body: a stale flag (relayed packet) is cleared
   let bl := p1.body.length
   if bl > Gen.v1_MaxBodyLength then .err "body length hit limit"
   else
